@@ -52,6 +52,7 @@ def verify_one(args):
         # per-function wall deadline (after it the remaining obligations get short budgets; see EngineBase.check)
         eng.deadline = time.time() + (240 if tier == 'quick' else 900) * (2 if attempt else 1)
         eng.had_unknown = False
+        eng.no_long_retry = bool(attempt)      # the fresh-process attempt already runs with twice the budget and another seed
         if fid.startswith('lemma::'):
             from pyvc.lemma import run_lemma
             info = run_lemma(eng, spec)
